@@ -84,11 +84,18 @@ def make_router(hash_type, rf):
   return ConsistentHashingRouter(s)
 
 
+class RoutingError(Exception):
+  pass
+
+
 def materialize(hash_type, universe, hist):
   r = make_router(hash_type, len(universe))
   for op, k in hist:
     d = universe[k]
-    (r.addDestination if op == 'add' else r.removeDestination)(d)
+    try:
+      (r.addDestination if op == 'add' else r.removeDestination)(d)
+    except Exception as e:   # noqa
+      raise RoutingError('%sDestination(%r) raised %r after %r' % (op, d, e, hist))
   return r
 
 
@@ -96,8 +103,6 @@ def entries(router):
   return tuple(router.ring.ring)
 
 
-class RoutingError(Exception):
-  pass
 
 
 def table_for(router, positions, keys):
